@@ -44,4 +44,10 @@ theorem C20_framing_generated (D : Desc) :
 transliteration of `get_new_line_chars` (translator item T22) -/
 theorem C20_newline_generated (s : St) : nlOff s = Gen.get_new_line_chars s := nlOff_generated s
 
+/-- the counters this property's theorems keep as unbounded natural numbers (`length`) are declared
+`size_t` in `cat.h` — 64 bits on the target, so they cannot wrap on any buffer, table or line that exists; the widths
+are read from the struct declarations on every run (translator item T21) -/
+theorem C20_counters_unbounded :
+    Gen.width_obj_length = 64 := by decide
+
 end Cat
